@@ -213,11 +213,13 @@ def drunS (srv : DServer) : Nat → Nat → DIter → DOut
         { yields := s'.buf.getD s'.pos Dlg.zero :: o.yields, reqs := r :: o.reqs, done := o.done }
       else { yields := [], reqs := [r], done := true }
 
-def dlgServer (ds : List Dlg) (ks : List Kind) : DServer := fun i off limit =>
+/-- The dialog server; `cap` = server-side page cap (Telegram silently clamps `limit`): a page holds
+`min limit cap` dialogs, so non-final pages may be shorter than requested. -/
+def dlgServer (ds : List Dlg) (ks : List Kind) (cap : Nat) : DServer := fun i off limit =>
   let rem := belowD ds off
-  (respKindD (ks.getD i .slice) rem.length limit, rem.take limit)
+  (respKindD (ks.getD i .slice) rem.length (min limit cap), rem.take (min limit cap))
 
-def drun (ds : List Dlg) (fuel : Nat) (ks : List Kind) (s : DIter) : DOut :=
-  drunS (dlgServer ds ks) fuel 0 s
+def drun (ds : List Dlg) (fuel : Nat) (ks : List Kind) (cap : Nat) (s : DIter) : DOut :=
+  drunS (dlgServer ds ks cap) fuel 0 s
 
 end TdModel.C39
